@@ -982,7 +982,7 @@ fn scale(tier: Tier, totals: &mut Totals) {
     // brackets, blanks - held in an array, a map and a set, looked for, joined, copied, listed
     {
         let items = [
-            "-i", "--ignore-case", "-I", "-r", "--recursive", "-c", "--copy", "--prefix", "--collection", "-", "--", "-1", "or", "and", "not", "true", "false", "0", "no", "(", ")", "a b", " ", "=", "handle:x", "std::set", "end", "in", "#", ";",
+            "-i", "--ignore-case", "-I", "-r", "--recursive", "-c", "--copy", "--prefix", "--collection", "-", "--", "-1", "or", "and", "not", "true", "false", "0", "no", "(", ")", "a b", " ", "=", "handle:x", "std::set", "end", "in", "#", ";", "\u{feff}x", "x\u{feff}", "x\u{200b}", "\u{a0}", "e\u{301}", "\u{1}",
         ];
         for it in items {
             let mut text = String::new();
